@@ -36,6 +36,9 @@ func (c *Ctx) scanOf(dir, rel string) *scandfa.Analysis {
 
 func (c *Ctx) scan(dir string) *scandfa.Analysis { return c.scanOf(dir, envOr("VERIF_SCANREL", "internal/scanner")) }
 
+// graphOracle is set by scanRun from the verification directory of the run
+var graphOracle = "/verif/testdata/oracle/machine_graph.json"
+
 type scanRule func(a *scandfa.Analysis) []*report.RuleResult
 
 var scanRules = map[string]scanRule{
@@ -79,11 +82,15 @@ var scanRules = map[string]scanRule{
 	"comment-kind":     func(a *scandfa.Analysis) []*report.RuleResult { return []*report.RuleResult{a.CommentKind()} },
 	"byte-siblings":    func(a *scandfa.Analysis) []*report.RuleResult { return []*report.RuleResult{a.ByteSiblings()} },
 	"crlf-unit":        func(a *scandfa.Analysis) []*report.RuleResult { return []*report.RuleResult{a.CrlfUnit()} },
+	"machine-graph": func(a *scandfa.Analysis) []*report.RuleResult {
+		return []*report.RuleResult{a.MachineGraph(graphOracle)}
+	},
 	"progress":         func(a *scandfa.Analysis) []*report.RuleResult { return []*report.RuleResult{a.Progress()} },
 }
 
 // scanRun runs scanner rule groups on the scanok/scanbad fixtures and on /repo.
 func (c *Ctx) scanRun(groups ...string) {
+	graphOracle = c.Verif + "/testdata/oracle/machine_graph.json"
 	if !c.NoFixtures {
 		dir := c.Verif + "/testdata/fixture/mini"
 		ok, bad := c.scanOf(dir, "internal/scanok"), c.scanOf(dir, "internal/scanbad")
@@ -99,6 +106,14 @@ func (c *Ctx) scanRun(groups ...string) {
 						r.Merge(scandfa.HeredocSpecMethods(p, "internal/hdbad"), "bad:")
 						return r
 					})
+					continue
+				}
+				if g == "machine-graph" {
+					// the miniature scanner has its own (two-machine) graph
+					fo := dir + "/machine_graph.json"
+					good := ok.MachineGraph(fo)
+					good.Merge(bad.MachineGraph(fo), "bad:")
+					c.compareFixture("mini", good.Rule, dir, good)
 					continue
 				}
 				if g == "lexeme-of" {
